@@ -1364,6 +1364,8 @@ package common
 //@ ghost n_set_score int
 // participation-flag writes (altair on; the model is in the altair package)
 //@ ghost n_set_pflag int
+// phase0 pending attestations: views built from a raw record, appends to a pending list (the models are in the phase0 package)
+//@ ghost n_patt_view int
 // eth1 data votes (assumed view model, versioned by the count of appends): length, how often a value occurs
 //@ sort VotesI = Eth1DataVotes
 //@ ufun st_votes_err(StateI) bool
@@ -1556,6 +1558,7 @@ package common
 //@   assigns ghost(n_biter), ghost(biter_pos), ghost(biter_reg), ghost(n_set_eb)
 //@   assigns ghost(n_set_wcred), ghost(set_wcred_v), ghost(set_wcred_val)
 //@   assigns ghost(n_set_bal)
+//@   assigns ghost(n_patt_view), ghost(last_patt_raw), ghost(n_clist_append), ghost(last_clist)
 //@   assigns ghost(n_set_pflag)
 //@   assigns ghost(n_set_nwi), ghost(set_nwi), ghost(n_set_nwvi), ghost(set_nwvi)
 //@   assigns ghost(n_aelig_write), ghost(n_set_act), ghost(last_set_act_v), ghost(last_set_act_val)
@@ -1590,6 +1593,7 @@ package common
 //@   ensures c03_signature: old(benv != nil && epc != nil && epc.ValidatorPubkeyCache != nil && (forall r PcPtr :: {pctrig(r)} pctrig(r) && alloc(r) ==> pc_local(r.pub2idx, r.idx2pub, r.trustedParentCount) && pc_chain(r.parent, r, r.trustedParentCount, r.parent.trustedParentCount, len(r.parent.idx2pub))) && (forall r PcPtr :: {held(r.rwLock)} held(r.rwLock) == 0)) && validateResult && err == nil ==> (exists pk Pub48T :: block_sig_ok(old(benv.ProposerIndex), epc_proposer(epc, old(benv.Slot)), old(benv.ForkDigest), old(benv.BlockRoot), old(benv.Signature), pk, DOMAIN_BEACON_PROPOSER, st_forkdata(state).CurrentVersion, st_gvr(state)))
 //@   assigns ghost(n_set_wcred), ghost(set_wcred_v), ghost(set_wcred_val)
 //@   assigns ghost(n_set_bal)
+//@   assigns ghost(n_patt_view), ghost(last_patt_raw), ghost(n_clist_append), ghost(last_clist)
 //@   assigns ghost(n_set_pflag)
 //@   assigns ghost(n_set_nwi), ghost(set_nwi), ghost(n_set_nwvi), ghost(set_nwvi)
 //@   assigns ghost(n_vote_append), ghost(last_vote_append), ghost(n_set_eth1), ghost(set_eth1)
